@@ -18,15 +18,13 @@ type Val struct {
 	Why string          `json:"why,omitempty"`
 	Seq []int           `json:"seq,omitempty"` // observed only: ids in returned order
 	Pos []int           `json:"pos,omitempty"` // observed only: Pos() in returned order
+	Ids []int           `json:"ids,omitempty"` // t = "fns": nodes of the environment's twin document (spec/XPath.tla)
 }
 
 type EnvVar struct {
 	Sp  []string `json:"sp"`
 	Lo  []string `json:"lo"`
 	Val Val      `json:"val"`
-	// Foreign: the node-set consists of the nodes with these ids in ANOTHER tree built from the same document
-	// (a node-set selected from a second document of the same shape: same string-values, same Pos() numbers)
-	Foreign bool `json:"foreign,omitempty"`
 }
 type EnvFunc struct {
 	Sp   []string `json:"sp"`
@@ -55,6 +53,9 @@ type Env struct {
 	Ns    NsMap     `json:"ns"`
 	Vars  []EnvVar  `json:"vars"`
 	Funcs []EnvFunc `json:"funcs"`
+	// Twin: another document (same shape, other values); variables of type "fns" hold nodes of a tree built from it,
+	// so their Pos() numbers coincide with those of nodes of the queried tree
+	Twin Doc `json:"twin,omitempty"`
 }
 
 var skipWhys = map[string]bool{"illtyped": true, "unk": true}
